@@ -193,6 +193,39 @@ def opMeta (j : Json) : Json :=
     ("fields", Json.arr (fields.map (fun kv => Json.arr #[toJson (mstrToString kv.1),
         match kv.2 with | some v => toJson (mstrToString v) | none => Json.null])).toArray)]
 
+/-! op `assign`: qualifier set, current and new value, line verdict, logic mode → the model's
+    outcome and the reference semantics' outcome -/
+def valOfJson (j : Json) : Assign.Val :=
+  match j with
+  | .null => .none
+  | .str s => .str s
+  | .num _ => match j.getInt? with
+    | .ok i => .int i
+    | .error _ => .none
+  | _ => .none
+
+def jsonOfVal : Assign.Val → Json
+  | .none => Json.null
+  | .int i => toJson i
+  | .str s => toJson s
+
+def opAssign (j : Json) : Json :=
+  let qs := (getArr j "quals").toList.map (fun x => match x with | .str s => s | _ => "")
+  let has := fun (n : String) => qs.contains n
+  let q : Assign.Quals := Assign.Quals.mk (has "onmatch") (has "latch") (has "onchange") (has "increase")
+    (has "decrease") (has "notnone") (has "asbool") (has "nocontrib")
+  let cur := valOfJson ((j.getObjVal? "cur").toOption.getD Json.null)
+  let y := valOfJson ((j.getObjVal? "y").toOption.getD Json.null)
+  let lm := getBool j "lm"
+  let dm := getBool j "dm" true
+  let sp := Spec.Assign.assign q cur y (lm == dm) dm
+  let specJ := Json.mkObj [("write", match sp.1 with | some v => Json.mkObj [("v", jsonOfVal v)] | none => Json.null),
+                           ("vote", toJson sp.2)]
+  match Assign.assign q cur y lm dm with
+  | .typeError => Json.mkObj [("model", Json.mkObj [("error", toJson "TypeError")]), ("spec", specJ)]
+  | .ok w v => Json.mkObj [("model", Json.mkObj [("write", match w with | some x => Json.mkObj [("v", jsonOfVal x)] | none => Json.null),
+                                                 ("vote", toJson v)]), ("spec", specJ)]
+
 def handle (line : String) : Json :=
   match Json.parse line with
   | .error e => Json.mkObj [("error", toJson s!"bad-json: {e}")]
@@ -202,6 +235,7 @@ def handle (line : String) : Json :=
     else if op == "run" then opRun j
     else if op == "den" then opDen j
     else if op == "meta" then opMeta j
+    else if op == "assign" then opAssign j
     else Json.mkObj [("error", toJson s!"bad-op: {op}")]
 
 partial def loop (h : IO.FS.Stream) (out : IO.FS.Stream) : IO Unit := do
